@@ -9,6 +9,7 @@ import (
 	"sort"
 	"strconv"
 	"strings"
+	"sync"
 	"time"
 
 	"github.com/paulmach/osm"
@@ -2234,7 +2235,87 @@ func c17Check(res *fw.Result, d *c17DS) {
 	}
 }
 
+// c17Cold: the very first conversions of a process, by many goroutines at once, on equal
+// input: "conversion of equal input gives equal output" must not depend on who converts first
+// (area detection uses a rule table that is package state).
+func c17Cold(c fw.Case) *fw.Result {
+	res := fw.NewResult()
+	mk := func() *osm.OSM {
+		o := &osm.OSM{}
+		id := int64(1)
+		for wi, tag := range [][2]string{{"indoor", "room"}, {"highway", "rest_area"}, {"building", "yes"}, {"natural", "water"}, {"highway", "residential"}, {"barrier", "wall"}, {"landuse", "forest"}, {"waterway", "riverbank"}} {
+			w := &osm.Way{ID: osm.WayID(100 + wi), Visible: true, Version: 1, Tags: osm.Tags{{Key: tag[0], Value: tag[1]}}}
+			first := id
+			for k := 0; k < 4; k++ {
+				o.Nodes = append(o.Nodes, &osm.Node{ID: osm.NodeID(id), Visible: true, Version: 1, Lat: float64(wi) + []float64{0, 0, 0.5, 0.5}[k], Lon: float64(wi) + []float64{0, 0.5, 0.5, 0}[k]})
+				w.Nodes = append(w.Nodes, osm.WayNode{ID: osm.NodeID(id)})
+				id++
+			}
+			w.Nodes = append(w.Nodes, osm.WayNode{ID: osm.NodeID(first)})
+			o.Ways = append(o.Ways, w)
+		}
+		return o
+	}
+	const G = 48
+	outs := make([]string, G)
+	start := make(chan struct{})
+	var wg sync.WaitGroup
+	for g := 0; g < G; g++ {
+		wg.Add(1)
+		in := mk()
+		go func(g int) {
+			defer wg.Done()
+			<-start
+			fc, err := osmgeojson.Convert(in)
+			if err != nil {
+				outs[g] = "error: " + err.Error()
+				return
+			}
+			b, _ := json.Marshal(fc)
+			outs[g] = string(b)
+		}(g)
+	}
+	close(start)
+	wg.Wait()
+	fc, _ := osmgeojson.Convert(mk())
+	b, _ := json.Marshal(fc)
+	ref := string(b)
+	differ := 0
+	for _, o := range outs {
+		if o != ref {
+			differ++
+		}
+	}
+	if differ > 0 {
+		res.Violatef("C17/coldstart/concurrent-first-use", "%d of %d conversions of equal input made concurrently as the first calls of the process differ from a later conversion of the same input", differ, G)
+	}
+	res.Event(G + 1)
+	res.Add("coldstart_concurrent_conversions", G)
+	res.Eval("coldstart/" + c.Variant)
+	return res
+}
+
 func c17Exec(c fw.Case) *fw.Result {
+	if c.Kind == "coldstart" {
+		if fw.IsCold() {
+			return c17Cold(c)
+		}
+		res := fw.NewResult()
+		for i := 0; i < int(c.Int("processes")); i++ {
+			r := fw.RunCold("C17", c, "C17/coldstart/crash")
+			res.Evals += r.Evals
+			res.Events += r.Events
+			res.Sigs = append(res.Sigs, r.Sigs...)
+			res.Violations = append(res.Violations, r.Violations...)
+			res.Inconclusive = append(res.Inconclusive, r.Inconclusive...)
+			res.RaceReports = append(res.RaceReports, r.RaceReports...)
+			for k, v := range r.Counts {
+				res.Counts[k] += v
+			}
+		}
+		res.Add("coldstart_processes", c.Int("processes"))
+		return res
+	}
 	res := fw.NewResult()
 	switch c.Kind {
 	case "random":
@@ -2293,8 +2374,12 @@ func init() {
 				}
 				cs = append(cs, fw.Case{Kind: "random", Seed: gen.Sub(seed, "c17", i), P: map[string]int64{"size": size, "rw": rw, "routes": routes}})
 			}
+			for _, v := range []string{"plain", "race"} {
+				cs = append(cs, fw.Case{Kind: "coldstart", Variant: v, P: map[string]int64{"processes": 5}})
+			}
 			return fw.Number(cs)
 		},
-		Exec: c17Exec,
+		Exec:            c17Exec,
+		RaceIsViolation: true,
 	})
 }
